@@ -1,6 +1,6 @@
 (* ReplaceLemmas.v — proofs about subst / rep / covered on the shared term AST (C15). *)
-From PV Require Import Base Crit gen.TermsTable Terms gen.C15Table Replace.
-From Coq Require Import Lia Arith.
+From PV Require Import Base Crit gen.TermsTable Terms gen.C15Table Replace lemmas.ReplaceEqs.
+From Coq Require Import Lia Arith Setoid.
 
 Scheme term_mind15 := Induction for term Sort Prop
   with tlist_mind15 := Induction for tlist Sort Prop
@@ -88,7 +88,8 @@ Lemma occ_subst_id_all :
   (forall t, occ t = false -> subst t = t) /\ (forall l, occ_l l = false -> subst_l l = l)
   /\ (forall l, occ_w l = false -> subst_w l = l) /\ (forall o, occ_o o = false -> subst_o o = o).
 Proof.
-  apply term_all_ind15; intros; cbn [Replace.subst Replace.subst_l Replace.subst_w Replace.subst_o] in *;
+  apply term_all_ind15; intros; autorewrite with rt15 in *;
+    cbn [Replace.subst Replace.subst_l Replace.subst_w Replace.subst_o] in *;
     cbn [Replace.occ Replace.occ_l Replace.occ_w Replace.occ_o] in *; auto;
     try (match goal with Hx : _ = false |- _ => orb_split Hx end);
     repeat match goal with
@@ -97,8 +98,8 @@ Proof.
            | IH : occ_w ?x = false -> _, Hx : occ_w ?x = false |- _ => rewrite (IH Hx); clear IH
            | IH : occ_o ?x = false -> _, Hx : occ_o ?x = false |- _ => rewrite (IH Hx); clear IH
            end; auto.
-  - rewrite sw_otbl_id; auto.
-  - rewrite sw_otbl_id; auto.
+  - rewrite sw_otbl_id by auto. reflexivity.
+  - rewrite sw_otbl_id by auto. reflexivity.
 Qed.
 Definition occ_subst_id := proj1 occ_subst_id_all.
 Definition occ_subst_id_l := proj1 (proj2 occ_subst_id_all).
@@ -110,7 +111,8 @@ Lemma occ_rep_id_all :
   (forall t, occ t = false -> rep t = t) /\ (forall l, occ_l l = false -> rep_l l = l)
   /\ (forall l, occ_w l = false -> rep_w l = l) /\ (forall o, occ_o o = false -> rep_o o = o).
 Proof.
-  apply term_all_ind15; intros; cbn [Replace.rep Replace.rep_l Replace.rep_w Replace.rep_o] in *;
+  apply term_all_ind15; intros; autorewrite with rt15 in *;
+    cbn [Replace.rep Replace.rep_l Replace.rep_w Replace.rep_o] in *;
     cbn [Replace.occ Replace.occ_l Replace.occ_w Replace.occ_o] in *; auto;
     try (match goal with Hx : _ = false |- _ => orb_split Hx end);
     repeat match goal with
@@ -120,8 +122,8 @@ Proof.
            | IH : occ_o ?x = false -> _, Hx : occ_o ?x = false |- _ => rewrite (IH Hx); clear IH
            end;
     repeat match goal with |- context [if ?b then ?x else ?x] => destruct b end; auto.
-  - rewrite sw_otbl_id; auto. destruct (vis KField S_table); reflexivity.
-  - rewrite sw_otbl_id; auto. destruct (vis KStar S_table); reflexivity.
+  - rewrite sw_otbl_id by auto. destruct (vis KField S_table); reflexivity.
+  - rewrite sw_otbl_id by auto. destruct (vis KStar S_table); reflexivity.
 Qed.
 Definition occ_rep_id := proj1 occ_rep_id_all.
 
@@ -149,9 +151,9 @@ Theorem covered_rep_subst_all :
   (forall t, covered t = true -> rep t = subst t) /\ (forall l, covered_l l = true -> rep_l l = subst_l l)
   /\ (forall l, covered_w l = true -> rep_w l = subst_w l) /\ (forall o, covered_o o = true -> rep_o o = subst_o o).
 Proof.
-  apply term_all_ind15; intros;
+  apply term_all_ind15; intros; autorewrite with rt15 in *;
     cbn [Replace.rep Replace.rep_l Replace.rep_w Replace.rep_o Replace.subst Replace.subst_l Replace.subst_w Replace.subst_o];
-    match goal with Hc : _ = true |- _ =>
+    try match goal with Hc : _ = true |- _ =>
       cbn [Replace.covered Replace.covered_l Replace.covered_w Replace.covered_o] in Hc; andb_split Hc end;
     repeat match goal with
            | Hc : cov1 ?v (covered ?x) (occ ?x) = true, IH : covered ?x = true -> _ |- _ =>
@@ -207,8 +209,8 @@ Theorem count_subst_all :
   /\ (forall l, count_w C (subst_w A B l) = count_w C l + (if tref_eqb C B then count_w A l else 0))
   /\ (forall o, count_o C (subst_o A B o) = count_o C o + (if tref_eqb C B then count_o A o else 0)).
 Proof.
-  apply term_all_ind15; intros; cbn [subst subst_l subst_w subst_o count count_l count_w count_o];
-    repeat match goal with H : _ = _ |- _ => rewrite H; clear H end;
+  apply term_all_ind15; intros; autorewrite with rt15; cbn [subst subst_l subst_w subst_o count count_l count_w count_o];
+    repeat match goal with H : _ = _ + _ |- _ => rewrite H; clear H end;
     try rewrite cnt_sw; destruct (tref_eqb C B); lia.
 Qed.
 
@@ -221,9 +223,9 @@ Theorem count_rep_all :
   (forall t, count C (rep A B t) = count C t) /\ (forall l, count_l C (rep_l A B l) = count_l C l)
   /\ (forall l, count_w C (rep_w A B l) = count_w C l) /\ (forall o, count_o C (rep_o A B o) = count_o C o).
 Proof.
-  apply term_all_ind15; intros; cbn [rep rep_l rep_w rep_o count count_l count_w count_o];
+  apply term_all_ind15; intros; autorewrite with rt15; cbn [rep rep_l rep_w rep_o count count_l count_w count_o];
     repeat match goal with |- context [if ?b then _ else _] => destruct b end;
-    cbn [count count_l count_w count_o];
+    autorewrite with rt15; cbn [count count_l count_w count_o];
     repeat match goal with H : _ = _ |- _ => rewrite H; clear H end;
     try rewrite cnt_sw_other; lia.
 Qed.
@@ -235,7 +237,7 @@ Theorem count_A_subst_all A B : tref_eqb B A = false ->
   /\ (forall l, count_w A (subst_w A B l) = 0) /\ (forall o, count_o A (subst_o A B o) = 0).
 Proof.
   intro BA.
-  apply term_all_ind15; intros; cbn [subst subst_l subst_w subst_o count count_l count_w count_o];
+  apply term_all_ind15; intros; autorewrite with rt15; cbn [subst subst_l subst_w subst_o count count_l count_w count_o];
     repeat match goal with H : _ = 0 |- _ => rewrite H; clear H end; auto.
   - destruct tbl as [t|]; simpl; auto. unfold sw_tbl, hit. destruct (tref_eqb t A) eqn:E; [rewrite BA | rewrite E]; reflexivity.
   - destruct tbl as [t|]; simpl; auto. unfold sw_tbl, hit. destruct (tref_eqb t A) eqn:E; [rewrite BA | rewrite E]; reflexivity.
@@ -248,7 +250,7 @@ Lemma count_occ_all A :
   /\ (forall l, sub_foreign_w A l = true -> (occ_w A l = false <-> count_w A l = 0))
   /\ (forall o, sub_foreign_o A o = true -> (occ_o A o = false <-> count_o A o = 0)).
 Proof.
-  apply term_all_ind15; intros;
+  apply term_all_ind15; intros; autorewrite with rt15 in *;
     cbn [occ occ_l occ_w occ_o count count_l count_w count_o sub_foreign sub_foreign_l sub_foreign_w sub_foreign_o] in *;
     try tauto;
     repeat match goal with
@@ -257,8 +259,84 @@ Proof.
     repeat match goal with
            | IH : ?P = true -> _, Hs : ?P = true |- _ => specialize (IH Hs)
            end;
-    rewrite ?orb_false_iff; try (split; intro; (lia || tauto)).
+    rewrite ?orb_false_iff;
+    repeat match goal with IH : _ = false <-> _ = 0 |- _ => rewrite IH; clear IH end;
+    try lia.
   - destruct tbl as [t|]; simpl; unfold hit; [destruct (tref_eqb t A)|]; split; intro; congruence.
-  - destruct tbl0 as [t|]; simpl; unfold hit; [destruct (tref_eqb t A)|]; split; intro; congruence.
-  - apply negb_true_iff in H. tauto.
+  - destruct tbl as [t|]; simpl; unfold hit; [destruct (tref_eqb t A)|]; split; intro; congruence.
+  - apply negb_true_iff in H. rewrite H. tauto.
 Qed.
+
+(* ------------------------------------------------------------------------------------------ *)
+(* exactness of the fragment: outside [covered] the traversal of the code differs from the     *)
+(* specification (for B other than A)                                                          *)
+(* ------------------------------------------------------------------------------------------ *)
+Section EXACT.
+Variables A B : tref.
+Hypothesis BA : tref_eqb B A = false.
+
+Lemma subst_fix_no_occ t : sub_foreign A t = true -> subst A B t = t -> occ A t = false.
+Proof.
+  intros F E. apply (proj1 (count_occ_all A) t F). rewrite <- E. apply (proj1 (count_A_subst_all A B BA)).
+Qed.
+Lemma subst_fix_no_occ_l l : sub_foreign_l A l = true -> subst_l A B l = l -> occ_l A l = false.
+Proof.
+  intros F E. apply (proj1 (proj2 (count_occ_all A)) l F). rewrite <- E. apply (proj1 (proj2 (count_A_subst_all A B BA))).
+Qed.
+Lemma subst_fix_no_occ_o o : sub_foreign_o A o = true -> subst_o A B o = o -> occ_o A o = false.
+Proof.
+  intros F E. apply (proj2 (proj2 (proj2 (count_occ_all A))) o F). rewrite <- E.
+  apply (proj2 (proj2 (proj2 (count_A_subst_all A B BA)))).
+Qed.
+Lemma sw_fix_no_occ o : sw_otbl A B o = o -> occ_otbl A o = false.
+Proof.
+  destruct o as [t|]; simpl; auto. unfold sw_tbl, hit. destruct (tref_eqb t A) eqn:E; auto.
+  intro H. inversion H as [H1]. rewrite <- H1 in E. congruence.
+Qed.
+
+Lemma slot_conv (v : bool) x :
+  sub_foreign A x = true -> (rep A B x = subst A B x -> covered A x = true) ->
+  (if v then rep A B x else x) = subst A B x -> cov1 v (covered A x) (occ A x) = true.
+Proof. destruct v; simpl; intros F IH E; auto. apply negb_true_iff. apply subst_fix_no_occ; auto. Qed.
+Lemma slot_conv_l (v : bool) x :
+  sub_foreign_l A x = true -> (rep_l A B x = subst_l A B x -> covered_l A x = true) ->
+  (if v then rep_l A B x else x) = subst_l A B x -> cov1 v (covered_l A x) (occ_l A x) = true.
+Proof. destruct v; simpl; intros F IH E; auto. apply negb_true_iff. apply subst_fix_no_occ_l; auto. Qed.
+Lemma slot_conv_o (v : bool) x :
+  sub_foreign_o A x = true -> (rep_o A B x = subst_o A B x -> covered_o A x = true) ->
+  (if v then rep_o A B x else x) = subst_o A B x -> cov1 v (covered_o A x) (occ_o A x) = true.
+Proof. destruct v; simpl; intros F IH E; auto. apply negb_true_iff. apply subst_fix_no_occ_o; auto. Qed.
+Lemma slot_conv_tbl (v : bool) o :
+  (if v then sw_otbl A B o else o) = sw_otbl A B o -> cov1 v true (occ_otbl A o) = true.
+Proof. destruct v; simpl; intros E; auto. apply negb_true_iff. apply sw_fix_no_occ; auto. Qed.
+
+Ltac andb_split' H :=
+  repeat match type of H with
+         | (_ && _)%bool = true => apply andb_true_iff in H; let H1 := fresh H in destruct H as [H H1]; try andb_split' H1
+         end.
+
+Theorem rep_subst_covered_all :
+  (forall t, sub_foreign A t = true -> rep A B t = subst A B t -> covered A t = true)
+  /\ (forall l, sub_foreign_l A l = true -> rep_l A B l = subst_l A B l -> covered_l A l = true)
+  /\ (forall l, sub_foreign_w A l = true -> rep_w A B l = subst_w A B l -> covered_w A l = true)
+  /\ (forall o, sub_foreign_o A o = true -> rep_o A B o = subst_o A B o -> covered_o A o = true).
+Proof.
+  apply term_all_ind15; intros; autorewrite with rt15 in *;
+    cbn [rep rep_l rep_w rep_o subst subst_l subst_w subst_o sub_foreign sub_foreign_l sub_foreign_w sub_foreign_o
+         covered covered_l covered_w covered_o] in *; auto;
+    repeat match goal with Hs : (_ && _)%bool = true |- _ => andb_split' Hs end;
+    repeat match goal with IH : ?P = true -> _, F : ?P = true |- _ => specialize (IH F) end;
+    match goal with E : _ = _ :> term |- _ => injection E as ? | E : _ = _ :> tlist |- _ => injection E as ?
+                  | E : _ = _ :> wlist |- _ => injection E as ? | E : _ = _ :> oterm |- _ => injection E as ?
+                  | _ => idtac end;
+    repeat (apply andb_true_iff; split);
+    try (apply slot_conv; assumption); try (apply slot_conv_l; assumption); try (apply slot_conv_o; assumption);
+    try (apply slot_conv_tbl; assumption); auto.
+Qed.
+
+(* covered is exactly the set of terms on which the code's traversal meets the specification *)
+Theorem covered_iff t : sub_foreign A t = true -> (covered A t = true <-> rep A B t = subst A B t).
+Proof.
+  intro F. split; [apply covered_rep_subst | apply (proj1 rep_subst_covered_all); exact F].
+Qed.
+End EXACT.
